@@ -71,7 +71,7 @@ def gen_policies(ctx, nrand):
 
 
 def run_codec(ctx, want_text):
-    b = lib.standard_build(ctx)
+    b = lib.standard_build(ctx, theorems=False)   # no Coq theorem for this property yet: see MANIFEST level
     if not lib.require_builds(ctx, b):
         return
     r = ctx.rng
